@@ -184,3 +184,16 @@ class FakeGit:
 
 
 NO_GIT = FakeGit(is_repo=False)
+
+
+class RealGit:
+    """The real git, usable while the process seam of a virtual run is installed (C17: nested repositories, cwd handling)."""
+
+    def run(self, argv, **kw):
+        from . import driver
+        import os
+        env = dict(os.environ, GIT_CONFIG_NOSYSTEM="1", HOME="/nonexistent", GIT_CEILING_DIRECTORIES=driver.scratch_root())
+        kw.setdefault("env", env)
+        with driver.unguarded():
+            return subprocess.run(argv, **kw)
+
